@@ -2382,6 +2382,9 @@ class EdgeQLSourceGenerator(codegen.SourceGenerator):
             from_clause = f'USING {node.code.language} FUNCTION '
             self._write_keywords(from_clause)
             self.visit(qlast.Constant.string(node.code.from_function))
+        elif node.code.from_expr:
+            from_clause = f'USING {node.code.language} EXPRESSION'
+            self._write_keywords(from_clause)
         elif node.code.language is qlast.Language.EdgeQL:
             if node.nativecode:
                 self._write_keywords('USING')
